@@ -355,6 +355,92 @@ def zygoRead (prec32 : Bool) (f : List Nat) : Option (Nat × Nat × Float × Flo
     let out := permute 0 counts (flipIdx zygoReadFlip h w)
     some (h, w, hdrF32 f offLatRes, W, out.map (zygoValueF prec32 W S O R), readWarns f (h * w))
 
+/-! ## general file layout: `header_size` bytes of header, an intensity block of `ilen` native (little-endian) `uint16`
+(`ilen = ac_width * ac_height * max(ac_n_buckets, 1)`), then the phase block.  The library's writer leaves the intensity
+block empty (`zygo_written_layout`), instrument files do not. -/
+
+/-- `if ib == 0: ib = 1` -/
+def modelBuckets (ib : Int) : Int := if ib = 0 then 1 else ib
+/-- `ilen = iw * ih * ib` (after the bucket default) -/
+def modelIlen (iw ih ib : Int) : Int := iw * ih * modelBuckets ib
+/-- byte offset of the intensity block: `offset=header_len` -/
+def modelIntOffset (hdr : Int) : Int := hdr
+/-- byte offset of the phase block: `offset=header_len + ilen * 2` -/
+def modelPhaseOffset (hdr ilen : Int) : Int := hdr + ilen * 2
+/-- `multi_intensity_action` ↦ frame selection: `none` = mean over the frames, `some k` = frame with Python index `k` -/
+def modelFrameSel : List (String × Option Int) := [("avg", none), ("first", some 0), ("last", some (-1))]
+
+/-- the reader's counts for a file with a `hdr`-byte header and `ilen` intensity samples, truncation arithmetic of the
+source as parameters (as `readCountsG`); `none` = the reader raises (header or intensity block incomplete) -/
+def readCountsAtG (missingF : Int → Int → Int → Int → Int) (backtrackF : Int → Int) (tailF : Int → Int) (inv : Int)
+    (hdr ilen : Nat) (f : List Nat) (n : Nat) : Option (List Int) :=
+  let off := hdr + ilen * 2
+  if f.length < off then none
+  else
+    let a := f.toArray
+    let missing : Int := missingF n f.length hdr ilen
+    if missing ≤ 0 then some ((List.range n).map fun j => sampleAtA a (off + 4 * j))
+    else
+      let start := sliceStart n (tailF (backtrackF missing))
+      some ((List.range n).map fun j => if start ≤ j then inv else sampleAtA a (off + 4 * j))
+
+def readCountsAt (hdr ilen : Nat) (f : List Nat) (n : Nat) : Option (List Int) :=
+  readCountsAtG modelMissing modelBacktrack modelTailLower zygoInvalid hdr ilen f n
+
+def readWarnsAt (hdr ilen : Nat) (f : List Nat) (n : Nat) : Bool :=
+  hdr + ilen * 2 ≤ f.length && f.length < hdr + ilen * 2 + 4 * n
+
+/-- intensity sample `i` (native = little-endian `uint16`) of the block at byte offset `hdr` -/
+def intensityAt (f : List Nat) (hdr i : Nat) : Nat := decLE [f.getD (hdr + 2 * i) 0, f.getD (hdr + 2 * i + 1) 0]
+
+/-- bytes of an intensity block -/
+def intensityBytes (v : List Nat) : List Nat := v.flatMap (encLE 2)
+
+/-- the frame the reader returns: `sel = none`: mean over the `ib` frames (float64), `some k`: frame `k` (Python index) -/
+def selectFrame (sel : Option Int) (ib px : Nat) (raw : Array Nat) : List Float :=
+  match sel with
+  | some k =>
+    let fr : Nat := if k < 0 then (ib + k).toNat else k.toNat
+    (List.range px).map fun i => Float.ofNat (raw.getD (fr * px + i) 0)
+  | none =>
+    (List.range px).map fun i =>
+      Float.ofNat ((List.range ib).foldl (fun acc b => acc + raw.getD (b * px + i) 0) 0) / Float.ofNat ib
+
+/-- `ZYGO_PHASE_RES_FACTORS`: phase-resolution code of the header ↦ counts per wave factor -/
+def modelPhaseRes : List (Nat × Int) := [(0, 4096), (1, 32768), (2, 131072)]
+/-- `ZYGO_PHASE_RES_FACTORS[res]`; `none` = `KeyError` (the reader rejects the file) -/
+def phaseResOf (table : List (Nat × Int)) (res : Nat) : Option Int := (table.find? (fun p => p.1 == res)).map (·.2)
+
+def offHeaderSize : Nat := 6
+def offAcWidth : Nat := 52
+def offAcHeight : Nat := 54
+def offAcBuckets : Nat := 56
+
+/-- the reader with the layout taken from the header (`header_size`, `ac_width`, `ac_height`, `ac_n_buckets`):
+`(h, w, lateral_resolution, wavelength, values, warned, (frames, ih, iw, selected intensity frame))` -/
+def zygoReadL (prec32 : Bool) (sel : Option Int) (f : List Nat) :
+    Option (Nat × Nat × Float × Float × List Float × Bool × Nat × Nat × Nat × List Float) :=
+  if f.length < headerLen then none else
+  let w := hdrU16 f offWidth
+  let h := hdrU16 f offHeight
+  let hdr := hdrU32 f offHeaderSize
+  let iw := hdrU16 f offAcWidth
+  let ih := hdrU16 f offAcHeight
+  let ib := (modelBuckets (hdrU16 f offAcBuckets)).toNat
+  let ilen := (modelIlen iw ih (hdrU16 f offAcBuckets)).toNat
+  match readCountsAt hdr ilen f (h * w), phaseResOf modelPhaseRes (hdrU16 f offPhaseRes) with
+  | none, _ => none
+  | _, none => none
+  | some counts, some Ri =>
+    let W := hdrF32 f offWvl
+    let S := hdrF32 f offScale
+    let O := hdrF32 f offObliq
+    let R : Float := Float.ofInt Ri
+    let out := permute 0 counts (flipIdx zygoReadFlip h w)
+    let raw := ((List.range ilen).map (intensityAt f hdr)).toArray
+    some (h, w, hdrF32 f offLatRes, W, out.map (zygoValueF prec32 W S O R), readWarnsAt hdr ilen f (h * w),
+          ib, ih, iw, selectFrame sel ib (ih * iw) raw)
+
 /-! ## Code V grid INT -/
 
 def cvNDA : Int := -32768
@@ -460,4 +546,45 @@ def cvDataText (toks : List (List Char)) : List Char := toks.flatMap (· ++ ['\n
 def cvReadText (tok1 tok2 : Nat) (nda : Int) (parse : List Char → Int) (t : List Char) : Option (Nat × Nat × List Int × Bool) :=
   cvReadInts tok1 tok2 nda (endsWS t) ((splitWS t []).map parse)
 
+/-! ## Code V preamble: comment lines, title line, header line -/
+
+/-- `txt.lstrip(strip).startswith(marker)` -/
+def isBangG (strip : List Char) (marker : Char) (t : List Char) : Bool :=
+  match t.dropWhile (fun c => strip.contains c) with
+  | c :: _ => c == marker
+  | [] => false
+
+/-- `txt[txt.find('\n')+1:]`; `none` when there is no newline (the reader raises) -/
+def dropLine : List Char → Option (List Char)
+  | [] => none
+  | c :: r => if c = '\n' then some r else dropLine r
+
+/-- `txt[:txt.find('\n')]` -/
+def takeLine : List Char → List Char
+  | [] => []
+  | c :: r => if c = '\n' then [] else c :: takeLine r
+
+/-- the reader's comment loop: while the text (after leading `strip` characters) starts with the marker, skip one line -/
+def skipCommentsG (strip : List Char) (marker : Char) : Nat → List Char → Option (List Char)
+  | 0, t => some t
+  | f + 1, t =>
+    if isBangG strip marker t then
+      match dropLine t with
+      | none => none
+      | some r => skipCommentsG strip marker f r
+    else some t
+
+/-- the preamble of the Code V reader: skip comment lines, then title line, then header line; `none` = raises -/
+def cvPreambleG (strip : List Char) (marker : Char) (t : List Char) : Option (List Char × List Char × List Char) :=
+  match skipCommentsG strip marker (t.length + 1) t with
+  | none => none
+  | some t1 =>
+    match dropLine t1 with
+    | none => none
+    | some t2 => some (takeLine t1, takeLine t2, (dropLine t2).getD [])
+
+/-- the characters `lstrip` removes before the comment test, as a sorted set (the order of the source's string is immaterial) -/
+def cvStripChars : List Char := ['\t', ' ']
+def cvCommentMarker : Char := '!'
+def cvPreamble (t : List Char) := cvPreambleG cvStripChars cvCommentMarker t
 end Model.C14
